@@ -3,6 +3,8 @@ package main
 import (
 	"fmt"
 	"go/token"
+	"go/types"
+	"sort"
 
 	"golang.org/x/tools/go/ssa"
 )
@@ -47,6 +49,7 @@ func selectResultVals(c *ssa.Call, idx int) map[ssa.Value]bool {
 // R6 what a goroutine started by a go statement captures is storage of that one call.
 func c16Extra(p *Program, r *Report) {
 	r.Explain("R5 every edge that leaves the receive loop of `for v in ch` is decided by the receive itself (closed channel, interrupted run) or by the error cell after the body ran (break / return / error); a loop exit decided by the received value would drop messages. " +
+		"R7 a call handler that starts function variants through func-typed locals on its go path covers every variant its ordinary path calls. " +
 		"R6 the variables captured by the function literal a go statement starts are parameters or storage allocated by this call (locals, make, slices of a local array): memory obtained from elsewhere (a pool, a package variable, a field) can be reused by the caller before the goroutine reads its arguments.")
 	m, err := buildVMModel(p)
 	if err != nil {
@@ -145,6 +148,80 @@ func c16Extra(p *Program, r *Report) {
 		}
 	}
 	r.Floor("C16.R6", n6, 4)
+
+	// R7: the go path and the ordinary path of a call handler dispatch over the same set of function variants
+	n7 := 0
+	for _, fn := range m.fns {
+		direct := map[string]bool{}
+		viaGo := map[string]bool{}
+		dynSig := func(c ssa.CallInstruction) string {
+			if c.Common().IsInvoke() || staticCallee(c) != nil {
+				return ""
+			}
+			if _, isBuiltin := c.Common().Value.(*ssa.Builtin); isBuiltin {
+				return ""
+			}
+			if _, isClosure := c.Common().Value.(*ssa.MakeClosure); isClosure {
+				return ""
+			}
+			if sg, ok := c.Common().Value.Type().Underlying().(*types.Signature); ok {
+				return sg.String()
+			}
+			return ""
+		}
+		for _, b := range fn.Blocks {
+			for _, in := range b.Instrs {
+				x, ok := in.(*ssa.Call)
+				if !ok {
+					continue
+				}
+				if sg := dynSig(x); sg != "" {
+					direct[sg] = true
+				}
+				if callee := staticCallee(x); callee != nil && callee.Pkg == m.sp && startsGoroutineWithParam(callee) {
+					for _, a := range x.Call.Args {
+						mc, ok := a.(*ssa.MakeClosure)
+						if !ok {
+							continue
+						}
+						for _, cb := range mc.Fn.(*ssa.Function).Blocks {
+							for _, cin := range cb.Instrs {
+								if cc, ok := cin.(ssa.CallInstruction); ok {
+									if sg := dynSig(cc); sg != "" {
+										viaGo[sg] = true
+									}
+								}
+							}
+						}
+					}
+				}
+			}
+		}
+		if len(direct) == 0 || len(viaGo) == 0 {
+			continue
+		}
+		n7++
+		var missing []string
+		for sg := range direct {
+			if !viaGo[sg] {
+				missing = append(missing, sg)
+			}
+		}
+		sort.Strings(missing)
+		r.Check(len(missing) == 0, "C16.R7", funcName(fn)+"|go path covers every variant", p.Pos(fn.Pos()), fmt.Sprintf("%d function variants are started by go exactly as they are called directly", len(direct)),
+			fmt.Sprintf("the ordinary call path calls functions of type %v but the go path has no branch for that type: `go f(...)` of such a function evaluates its arguments and then starts nothing", missing))
+	}
+	r.Floor("C16.R7", n7, 1)
+}
+
+// calledLocal: v is a load of a func-typed local variable kept in memory.
+func calledLocal(v ssa.Value) *ssa.Alloc {
+	u, ok := v.(*ssa.UnOp)
+	if !ok || u.Op != token.MUL {
+		return nil
+	}
+	al, _ := u.X.(*ssa.Alloc)
+	return al
 }
 
 // startsGoroutineWithParam: fn runs one of its func-typed parameters on a new goroutine.
